@@ -1,6 +1,6 @@
 """C07 — bigWig zoom levels are faithful reductions of the data."""
 from vlib import CaseT
-from wbprop import WigBedProp
+from wbprop import WigBedProp, byte_level_check
 import bbgen
 
 
@@ -47,6 +47,11 @@ class C07(WigBedProp):
 
     def oracle(self, case, il):
         return bbgen.basic_ok(il) or bbgen.oracle_zoom(case, il, self.bed)
+
+
+    def extra_checks(self, rep, tier, rng, workdir):
+        if not self.bed:
+            byte_level_check(self, rep, workdir)
 
 
 PROP = C07()
